@@ -10,7 +10,9 @@ class of the type, the field list and `.linear`).  The HUGR builder is a recorde
   b. `c[p]` afterwards packs exactly those leaf wires, in the same order and with the same
      type list as the unpack (well-typed ports);
   c. after `c[p]` no linear leaf is still bound (a linear wire can be connected only once),
-     and the aggregate's wire is bound so a second read does not pack again.
+     and the aggregate's wire is bound so a second read does not pack again;
+  d. after `c[p]` (packed, cached) every leaf is assigned anew (`s.q = ...; s.r = ...`): no wire of an enclosing aggregate is
+     still bound, and the next `c[p]` packs exactly the new leaf wires, each once (not the stale first pack).
 """
 
 from __future__ import annotations
@@ -90,9 +92,9 @@ def run(ctx: Ctx) -> None:
                 parent = vals[0]
                 if kind == "FieldAccess":
                     fld = vals[1]
-                    return Tok(f"{parent.name}.{fld.attrs['name']}", id=f"{parent.attrs['id']}.{fld.attrs['name']}", ty=fld.attrs["ty"], __class__="FieldAccess", __ident__=1)
+                    return Tok(f"{parent.name}.{fld.attrs['name']}", id=f"{parent.attrs['id']}.{fld.attrs['name']}", ty=fld.attrs["ty"], parent=parent, __class__="FieldAccess", __ident__=1)
                 elem, i = vals[1], vals[2]
-                return Tok(f"{parent.name}.{i}", id=f"{parent.attrs['id']}.{i}", ty=elem, __class__="TupleAccess", __ident__=1)
+                return Tok(f"{parent.name}.{i}", id=f"{parent.attrs['id']}.{i}", ty=elem, parent=parent, __class__="TupleAccess", __ident__=1)
             return h
 
         env = {
@@ -119,6 +121,41 @@ def run(ctx: Ctx) -> None:
             ev.call_dunder(set_, cont, [place, "w_in2"], env)
             after_set2 = dict(locals_)
             new_leafs = {w for o in ops[n_before2:] if o[0] == "UnpackTuple" for w in o[3]}
+            # d. the aggregate is read (packed and cached), then re-initialised LEAF BY LEAF (`s.q = ...; s.r = ...`): the cached
+            #    wires of the enclosing aggregates are stale and must be forgotten, the next read packs the new leaves
+            got3 = ev.call_dunder(get_, cont, [place], env)
+
+            def leaves(pl, t):
+                cls_ = t.attrs["__class__"]
+                if cls_ == "StructType":
+                    for fld in t.attrs["fields"]:
+                        yield from leaves(Tok(f"{pl.name}.{fld.attrs['name']}", id=f"{pl.attrs['id']}.{fld.attrs['name']}", ty=fld.attrs["ty"], parent=pl, __class__="FieldAccess", __ident__=1), fld.attrs["ty"])
+                elif cls_ == "TupleType":
+                    for i_, et in enumerate(t.attrs["element_types"]):
+                        yield from leaves(Tok(f"{pl.name}.{i_}", id=f"{pl.attrs['id']}.{i_}", ty=et, parent=pl, __class__="TupleAccess", __ident__=1), et)
+                else:
+                    yield pl
+            leaf_places = list(leaves(place, ty))
+            for i_, lp in enumerate(leaf_places):
+                ev.call_dunder(set_, cont, [lp, f"w_new{i_}"], env)
+            after_leafwise = dict(locals_)
+            n_before4 = len(ops)
+            got4 = ev.call_dunder(get_, cont, [place], env)
+            packed_inputs4 = [w for o in ops[n_before4:] if o[0] == "MakeTuple" for w in o[2] if str(w).startswith("w_new")]
+            # d'. only the leaves of a NESTED aggregate are assigned anew (`s.t.0 = ...; s.t.1 = ...`) while the direct leaves of the
+            #     place keep their wires (possible when those are not linear): the wire of the OUTER place is stale as well
+            deep = [lp for lp in leaf_places if lp.attrs["id"].count(".") >= 2]
+            shallow_linear = any(lp.attrs["ty"].attrs["linear"] for lp in leaf_places if lp.attrs["id"].count(".") == 1)
+            nested_check = None
+            if deep and not shallow_linear:
+                for i_, lp in enumerate(deep):
+                    ev.call_dunder(set_, cont, [lp, f"w_deep{i_}"], env)
+                stale_outer = "p" in locals_
+                n_before5 = len(ops)
+                got5 = ev.call_dunder(get_, cont, [place], env)
+                used5 = sorted(w for o in ops[n_before5:] if o[0] == "MakeTuple" for w in o[2] if str(w).startswith("w_deep"))
+                nested_check = {"outer_wire_still_bound": stale_outer, "second_read_returns_the_earlier_pack": got5 == got4,
+                                "nested_leaves_packed": used5, "should_pack": sorted(f"w_deep{i_}" for i_ in range(len(deep)))}
         except Unsupported as e:
             ctx.undecided("R-C01.5", key, set_.where, f"{type(e).__name__}: {e}")
             continue
@@ -157,6 +194,15 @@ def run(ctx: Ctx) -> None:
             problems.append({"clause": "c", "still_bound_linear": lin_left, "bound_after_get": after_get, "repacked_on_second_read": repacked})
         if "p" in after_set2 or not set(after_set2.values()) <= new_leafs:
             problems.append({"clause": "a (re-assignment)", "bound_after_second_set": after_set2, "wires_of_second_value": sorted(new_leafs)})
+        leaf_ids = {lp.attrs["id"] for lp in leaf_places}
+        stale = sorted(k for k in after_leafwise if k not in leaf_ids)
+        # (inner aggregates are packed first: every new leaf wire goes into exactly one pack; positions are clause b's subject)
+        if stale or got4 == got3 or sorted(packed_inputs4) != sorted(f"w_new{i_}" for i_ in range(len(leaf_places))):
+            problems.append({"clause": "d (leaf-wise re-initialisation after a read)", "aggregate_wires_still_bound": stale, "second_read_returns_the_first_pack": got4 == got3,
+                             "leaves_packed_by_the_second_read": packed_inputs4})
+        if nested_check is not None and (nested_check["outer_wire_still_bound"] or nested_check["second_read_returns_the_earlier_pack"]
+                                         or nested_check["nested_leaves_packed"] != nested_check["should_pack"]):
+            problems.append({"clause": "d' (only the leaves of a nested aggregate re-assigned)", **nested_check})
         n_ok += not problems
         ctx.check(not problems, "R-C01.5", key, set_.where, {"ops": [(o[0], o[2], o[3]) for o in ops], "problems": problems},
                   "storing a struct/tuple value and reading it back wires the HUGR wrongly: a stale or doubly-used wire, a field in "
